@@ -12,6 +12,9 @@ CLAIMED = {
  "C05": ("all-paths must-pass-through + provenance + must-lockset over go/ssa",
          "Static: on every CFG path, constructor and every post-OnSample path pass strategy.SetLimit(limit.EstimatedLimit()) on the same limiter's pair under its exclusive mutex; every Strategy.SetLimit stores exactly max(1,arg) and forwards it to all share updates; no other writer of the enforced limit. Necessary structural conditions of 'enforcement follows the estimate', decided for all paths/inputs; the estimate's values are not decided.",
          "5/C05"),
+ "C16": ("all-paths store=>notify typestate + provenance over go/ssa",
+         "Static: every post-construction store of a limit's estimate is followed on every path to return by the notification routine carrying that value through EstimatedLimit's own conversion; the routine reaches every registered listener; NotifyOnChange registers (or forwards) on every path under the mutex; wrappers report and forward unchanged. Decided for all paths of all limit implementations; notification order under concurrent SetLimit is not decided.",
+         "5/C16"),
 }
 
 PENDING_REASON = "check not built yet in this session; see DESIGN.md section 5 for the planned static obligations"
